@@ -6,6 +6,8 @@ pub mod div;
 pub mod modpow;
 pub mod mul;
 pub mod numth;
+#[cfg(feature = "serde")]
+pub mod serde_drv;
 pub mod text;
 pub mod transcript;
 
@@ -25,6 +27,8 @@ pub fn run(name: &str, r: &mut Rec) -> bool {
         "sign" => numth::run_sign(r),
         "modpow" => modpow::run(r),
         "text" => text::run(r),
+        #[cfg(feature = "serde")]
+        "serde" => serde_drv::run(r),
         "transcript" => transcript::run(r),
         _ => return false,
     }
